@@ -5,16 +5,29 @@
 // The hand-written model (Model/Balances.lean, Model/BalancesCfg.lean) lets the in-force minimum change only when
 // the index is built (LoadBalancesFromUtxo); "the minimum is constant while the index is enabled AND while it is
 // being built" rests on these source facts:
-//   - common.allBalMinVal is stored only by ApplyBalMinVal (atomic store of CFG.AllBalances.MinValue), loaded only
-//     by AllBalMinVal;
+//   - the variable common.AllBalMinVal() returns is stored only by ApplyBalMinVal (atomic store of
+//     CFG.AllBalances.MinValue), loaded only by AllBalMinVal;
 //   - ApplyBalMinVal is called only from common.InitConfig (start-up) and wallet.LoadBalancesFromUtxo, there once,
-//     before the scan loop, behind the `if WalletON { return }` guard;
+//     before the scan, behind the `if WalletON { return }` guard;
 //   - common.Reset (the function the WebUI / TextUI call after a config change, possibly from another goroutine
-//     while the index is being built) cannot reach a store of allBalMinVal;
-//   - wallet.NewUTXO / all_del_utxos compare with common.AllBalMinVal() and nothing in client/wallet reads
-//     CFG.AllBalances.MinValue directly;
-//   - wallet.useMapCnt is assigned only in InitMaps and LoadBalances, from CFG.AllBalances.UseMapCnt.
+//     while the index is being built) cannot reach a store of that variable;
+//   - everything wallet.TxNotifyAdd / TxNotifyDel (the callbacks of UnspentDB) compare an output's Value with is
+//     common.AllBalMinVal(), and nothing in client/wallet reads CFG.AllBalances.MinValue directly;
+//   - the wallet's copy of CFG.AllBalances.UseMapCnt is assigned only in InitMaps and LoadBalances.
+//
 // Proofs/C17Cfg.lean restates them (`source_facts`), Props/C17.lean's load_ignores_config_changes depends on them.
+//
+// CANONICAL FORM (so that behaviour-preserving refactorings do not change the facts):
+//   - functions are named only when they are ENTRY POINTS of their package: exported functions / methods, init,
+//     main, and functions used as a value (callbacks). Every other function is treated as if it were inlined into
+//     its callers: "f holds X" is reported for the entry points that reach the holder through non-entry functions.
+//     Hence renaming, extracting or inlining an unexported helper changes nothing;
+//   - the two package variables are found by their ROLE, not by name: the uint64 that exported common.AllBalMinVal
+//     loads atomically; the wallet variable that is assigned from common.CFG.AllBalances.UseMapCnt;
+//   - expressions are printed with locals resolved: a local defined once by `x := e` prints as `e`, any other
+//     local as `<local>`; so names of locals, parameters and results never appear;
+//   - facts that are sets are sorted sets.
+//
 // Exits non-zero when the source no longer has a shape it understands.
 package main
 
@@ -40,12 +53,19 @@ func die(err error) {
 }
 
 type pkg struct {
-	dir   string // relative to the repo root
-	name  string // last path element
-	fset  *token.FileSet
-	files map[string]*ast.File
-	funcs map[string]*ast.FuncDecl // plain top-level functions by name
-	all   []*ast.FuncDecl          // functions and methods
+	dir     string // relative to the repo root
+	name    string // last path element
+	fset    *token.FileSet
+	files   map[string]*ast.File
+	funcs   map[string]*ast.FuncDecl   // plain top-level functions by name
+	methods map[string][]*ast.FuncDecl // methods by method name (any receiver)
+	all     []*ast.FuncDecl            // functions and methods with a body
+	fileOf  map[*ast.FuncDecl]*ast.File
+	globals map[string]bool        // package-level variable names
+	valUsed map[*ast.FuncDecl]bool // function / method referenced other than as the callee of a call
+	callees map[*ast.FuncDecl][]*ast.FuncDecl
+	varInit *ast.FuncDecl     // pseudo function: the initialisers of package-level variables
+	alias   map[string]string // package-level variables printed by their role instead of their name
 }
 
 func src(fset *token.FileSet, n ast.Node) string {
@@ -54,12 +74,39 @@ func src(fset *token.FileSet, n ast.Node) string {
 	return strings.Join(strings.Fields(b.String()), "")
 }
 
+func strip(e ast.Expr) ast.Expr {
+	for {
+		p, ok := e.(*ast.ParenExpr)
+		if !ok {
+			return e
+		}
+		e = p.X
+	}
+}
+
+func imports(f *ast.File) map[string]bool {
+	m := map[string]bool{}
+	for _, im := range f.Imports {
+		path := strings.Trim(im.Path.Value, "\"`")
+		n := filepath.Base(path)
+		if im.Name != nil {
+			n = im.Name.Name
+		}
+		m[n] = true
+	}
+	return m
+}
+
 func loadPkg(rel string) *pkg {
-	p := &pkg{dir: rel, name: filepath.Base(rel), fset: token.NewFileSet(), files: map[string]*ast.File{}, funcs: map[string]*ast.FuncDecl{}}
+	p := &pkg{dir: rel, name: filepath.Base(rel), fset: token.NewFileSet(), files: map[string]*ast.File{},
+		funcs: map[string]*ast.FuncDecl{}, methods: map[string][]*ast.FuncDecl{}, fileOf: map[*ast.FuncDecl]*ast.File{},
+		globals: map[string]bool{}, valUsed: map[*ast.FuncDecl]bool{}, callees: map[*ast.FuncDecl][]*ast.FuncDecl{}}
 	ents, err := os.ReadDir(filepath.Join(vtrans.RepoRoot(), rel))
 	if err != nil {
 		die(err)
 	}
+	var inits []ast.Stmt
+	var initFile *ast.File
 	for _, e := range ents {
 		n := e.Name()
 		if e.IsDir() || !strings.HasSuffix(n, ".go") || strings.HasSuffix(n, "_test.go") || strings.HasPrefix(n, "verif_export") {
@@ -71,15 +118,127 @@ func loadPkg(rel string) *pkg {
 		}
 		p.files[n] = f
 		for _, d := range f.Decls {
-			if fd, ok := d.(*ast.FuncDecl); ok && fd.Body != nil {
-				p.all = append(p.all, fd)
-				if fd.Recv == nil {
-					p.funcs[fd.Name.Name] = fd
+			switch x := d.(type) {
+			case *ast.FuncDecl:
+				if x.Body == nil {
+					continue
+				}
+				p.all = append(p.all, x)
+				p.fileOf[x] = f
+				if x.Recv == nil {
+					p.funcs[x.Name.Name] = x
+				} else {
+					p.methods[x.Name.Name] = append(p.methods[x.Name.Name], x)
+				}
+			case *ast.GenDecl:
+				if x.Tok != token.VAR {
+					continue
+				}
+				for _, sp := range x.Specs {
+					vs := sp.(*ast.ValueSpec)
+					for _, id := range vs.Names {
+						p.globals[id.Name] = true
+					}
+					for _, v := range vs.Values {
+						inits = append(inits, &ast.ExprStmt{X: v})
+						initFile = f
+					}
 				}
 			}
 		}
 	}
+	if len(inits) > 0 {
+		// (imports of the last file with an initialiser are used for all of them: only matters for telling
+		// `pkg.F()` from `value.method()`, and is conservative either way)
+		p.varInit = &ast.FuncDecl{Name: ast.NewIdent("<package-variable-initialisers>"), Type: &ast.FuncType{Params: &ast.FieldList{}}, Body: &ast.BlockStmt{List: inits}}
+		p.all = append(p.all, p.varInit)
+		p.fileOf[p.varInit] = initFile
+	}
+	// call graph inside the package. A call `f(…)` goes to the plain function f; a call `x.m(…)` where x is not an
+	// imported package goes to EVERY method called m (receiver types are not resolved: over-approximation).
+	// Any other mention of a function / method name makes it "used as a value" (callback): an entry point.
+	for _, fd := range p.all {
+		imp := imports(p.fileOf[fd])
+		inCall := map[ast.Node]bool{}
+		seen := map[*ast.FuncDecl]bool{}
+		add := func(g *ast.FuncDecl) {
+			if !seen[g] {
+				seen[g] = true
+				p.callees[fd] = append(p.callees[fd], g)
+			}
+		}
+		ast.Inspect(fd.Body, func(n ast.Node) bool {
+			c, ok := n.(*ast.CallExpr)
+			if !ok {
+				return true
+			}
+			fn := strip(c.Fun)
+			if ix, ok := fn.(*ast.IndexExpr); ok { // generic instantiation f[T](…)
+				fn = strip(ix.X)
+			}
+			switch x := fn.(type) {
+			case *ast.Ident:
+				if g := p.funcs[x.Name]; g != nil && !isLocal(fd, x) {
+					inCall[x] = true
+					add(g)
+				}
+			case *ast.SelectorExpr:
+				if id, ok := x.X.(*ast.Ident); ok && imp[id.Name] && !isLocal(fd, id) {
+					return true
+				}
+				inCall[x.Sel] = true
+				for _, g := range p.methods[x.Sel.Name] {
+					add(g)
+				}
+			}
+			return true
+		})
+		funcRef := func(id *ast.Ident) {
+			if !inCall[id] && !isLocal(fd, id) {
+				if g := p.funcs[id.Name]; g != nil {
+					p.valUsed[g] = true
+				}
+			}
+		}
+		var visit func(n ast.Node) bool
+		visit = func(n ast.Node) bool {
+			switch x := n.(type) {
+			case *ast.SelectorExpr:
+				if id, ok := x.X.(*ast.Ident); ok && imp[id.Name] && !isLocal(fd, id) {
+					return false
+				}
+				if !inCall[x.Sel] { // method value (or a field of the same name: conservative)
+					for _, g := range p.methods[x.Sel.Name] {
+						p.valUsed[g] = true
+					}
+				}
+				ast.Inspect(x.X, visit) // not x.Sel: a field / method name is not a reference to a plain function
+				return false
+			case *ast.KeyValueExpr:
+				if _, ok := x.Key.(*ast.Ident); ok { // struct field name (or a map key that is then looked at as a value below)
+					ast.Inspect(x.Value, visit)
+					return false
+				}
+			case *ast.Ident:
+				funcRef(x)
+			}
+			return true
+		}
+		ast.Inspect(fd.Body, visit)
+	}
 	return p
+}
+
+// isLocal: the identifier resolves (go/parser's file-scope resolution) to something declared inside fd.
+func isLocal(fd *ast.FuncDecl, id *ast.Ident) bool {
+	if id.Obj == nil {
+		return false
+	}
+	d, ok := id.Obj.Decl.(ast.Node)
+	if !ok {
+		return false
+	}
+	return fd.Pos().IsValid() && d.Pos() >= fd.Pos() && d.End() <= fd.End()
 }
 
 func fname(fd *ast.FuncDecl) string {
@@ -95,45 +254,246 @@ func fname(fd *ast.FuncDecl) string {
 	return fd.Name.Name
 }
 
-// callsTo lists the functions of p that contain a call whose callee prints as one of `callee`.
-func (p *pkg) callsTo(callee ...string) (out []string) {
-	for _, fd := range p.all {
-		hit := false
-		ast.Inspect(fd.Body, func(n ast.Node) bool {
-			if c, ok := n.(*ast.CallExpr); ok {
-				s := src(p.fset, c.Fun)
-				for _, w := range callee {
-					if s == w {
-						hit = true
-					}
-				}
-			}
-			return true
-		})
-		if hit {
-			out = append(out, fname(fd))
-		}
-	}
-	sort.Strings(out)
-	return
+// entry: a function that can be invoked from outside the package's own call graph.
+func (p *pkg) entry(fd *ast.FuncDecl) bool {
+	n := fd.Name.Name
+	return ast.IsExported(n) || n == "init" || n == "main" || fd == p.varInit || p.valUsed[fd]
 }
 
-// mentions lists the functions of p whose body contains a node printing exactly as `expr` (selector expressions).
-func (p *pkg) mentions(expr string) (out []string) {
+// inl(fd): fd and every NON-ENTRY function it reaches through non-entry functions — "fd with its unexported
+// helpers inlined".
+func (p *pkg) inl(fd *ast.FuncDecl) []*ast.FuncDecl {
+	out := []*ast.FuncDecl{fd}
+	seen := map[*ast.FuncDecl]bool{fd: true}
+	for i := 0; i < len(out); i++ {
+		for _, g := range p.callees[out[i]] {
+			if !seen[g] && !p.entry(g) {
+				seen[g] = true
+				out = append(out, g)
+			}
+		}
+	}
+	return out
+}
+
+// clo(fd): fd and everything it reaches inside the package (entry or not).
+func (p *pkg) clo(fd *ast.FuncDecl) []*ast.FuncDecl {
+	out := []*ast.FuncDecl{fd}
+	seen := map[*ast.FuncDecl]bool{fd: true}
+	for i := 0; i < len(out); i++ {
+		for _, g := range p.callees[out[i]] {
+			if !seen[g] {
+				seen[g] = true
+				out = append(out, g)
+			}
+		}
+	}
+	return out
+}
+
+// lift: the entry points whose inlined body contains one of the holders (sorted names).
+func (p *pkg) lift(holders map[*ast.FuncDecl]bool) []string {
+	set := map[string]bool{}
+	for _, e := range p.all {
+		if !p.entry(e) {
+			continue
+		}
+		for _, g := range p.inl(e) {
+			if holders[g] {
+				set[fname(e)] = true
+			}
+		}
+	}
+	return sorted(set)
+}
+
+func sorted(m map[string]bool) []string {
+	out := []string{}
+	for k := range m {
+		out = append(out, k)
+	}
+	sort.Strings(out)
+	return out
+}
+
+// holding: the functions whose own body has a node satisfying pred.
+func (p *pkg) holding(pred func(fd *ast.FuncDecl, n ast.Node) bool) map[*ast.FuncDecl]bool {
+	out := map[*ast.FuncDecl]bool{}
 	for _, fd := range p.all {
-		hit := false
 		ast.Inspect(fd.Body, func(n ast.Node) bool {
-			if s, ok := n.(*ast.SelectorExpr); ok && src(p.fset, s) == expr {
-				hit = true
+			if n != nil && pred(fd, n) {
+				out[fd] = true
 			}
 			return true
 		})
-		if hit {
-			out = append(out, fname(fd))
+	}
+	return out
+}
+
+func (p *pkg) isCallTo(n ast.Node, callee string) bool {
+	c, ok := n.(*ast.CallExpr)
+	return ok && src(p.fset, strip(c.Fun)) == callee
+}
+
+// ---- expressions with locals resolved
+
+// singleDef: id is a local introduced by `id := rhs` (one value per name) and never written again in fd.
+func singleDef(fd *ast.FuncDecl, id *ast.Ident) ast.Expr {
+	as, ok := id.Obj.Decl.(*ast.AssignStmt)
+	if !ok || as.Tok != token.DEFINE || len(as.Lhs) != len(as.Rhs) {
+		return nil
+	}
+	var rhs ast.Expr
+	for i, l := range as.Lhs {
+		if li, ok := l.(*ast.Ident); ok && li.Obj == id.Obj {
+			rhs = as.Rhs[i]
 		}
 	}
-	sort.Strings(out)
-	return
+	if rhs == nil {
+		return nil
+	}
+	written := false
+	ast.Inspect(fd.Body, func(n ast.Node) bool {
+		switch x := n.(type) {
+		case *ast.AssignStmt:
+			if x == as {
+				return true
+			}
+			for _, l := range x.Lhs {
+				if li, ok := strip(l).(*ast.Ident); ok && li.Obj == id.Obj {
+					written = true
+				}
+			}
+		case *ast.IncDecStmt:
+			if li, ok := strip(x.X).(*ast.Ident); ok && li.Obj == id.Obj {
+				written = true
+			}
+		case *ast.UnaryExpr:
+			if li, ok := strip(x.X).(*ast.Ident); ok && x.Op == token.AND && li.Obj == id.Obj {
+				written = true
+			}
+		case *ast.RangeStmt:
+			for _, l := range []ast.Expr{x.Key, x.Value} {
+				if li, ok := l.(*ast.Ident); ok && li.Obj == id.Obj {
+					written = true
+				}
+			}
+		}
+		return true
+	})
+	if written {
+		return nil
+	}
+	return rhs
+}
+
+func (p *pkg) canon(fd *ast.FuncDecl, e ast.Expr, depth int) string {
+	switch x := e.(type) {
+	case *ast.ParenExpr:
+		return p.canon(fd, x.X, depth)
+	case *ast.Ident:
+		if isLocal(fd, x) {
+			if depth < 4 {
+				if rhs := singleDef(fd, x); rhs != nil {
+					return p.canon(fd, rhs, depth+1)
+				}
+			}
+			return "<local>"
+		}
+		if a, ok := p.alias[x.Name]; ok {
+			return a
+		}
+		return x.Name
+	case *ast.SelectorExpr:
+		return p.canon(fd, x.X, depth) + "." + x.Sel.Name
+	case *ast.StarExpr:
+		return "*" + p.canon(fd, x.X, depth)
+	case *ast.UnaryExpr:
+		return x.Op.String() + p.canon(fd, x.X, depth)
+	case *ast.BinaryExpr:
+		return "(" + p.canon(fd, x.X, depth) + x.Op.String() + p.canon(fd, x.Y, depth) + ")"
+	case *ast.IndexExpr:
+		return p.canon(fd, x.X, depth) + "[" + p.canon(fd, x.Index, depth) + "]"
+	case *ast.CallExpr:
+		a := make([]string, len(x.Args))
+		for i := range x.Args {
+			a[i] = p.canon(fd, x.Args[i], depth)
+		}
+		return p.canon(fd, x.Fun, depth) + "(" + strings.Join(a, ",") + ")"
+	case *ast.BasicLit:
+		return x.Value
+	}
+	return src(p.fset, e)
+}
+
+var universe = map[string]bool{"len": true, "cap": true, "int": true, "int8": true, "int16": true, "int32": true, "int64": true,
+	"uint": true, "uint8": true, "uint16": true, "uint32": true, "uint64": true, "uintptr": true, "byte": true, "rune": true,
+	"float32": true, "float64": true, "true": true, "false": true, "nil": true, "min": true, "max": true, "string": true, "bool": true}
+
+// external: the expression (locals defined once resolved) mentions something that is neither a local nor a
+// predeclared name — a package-level variable / function or another package.
+func (p *pkg) external(fd *ast.FuncDecl, e ast.Expr, depth int) bool {
+	ext := false
+	var visit func(n ast.Node) bool
+	visit = func(n ast.Node) bool {
+		switch x := n.(type) {
+		case *ast.SelectorExpr:
+			ast.Inspect(x.X, visit) // a field name is not a reference
+			return false
+		case *ast.FuncLit:
+			return false
+		case *ast.Ident:
+			if isLocal(fd, x) {
+				if depth < 4 {
+					if rhs := singleDef(fd, x); rhs != nil && p.external(fd, rhs, depth+1) {
+						ext = true
+					}
+				}
+			} else if !universe[x.Name] && x.Name != "_" {
+				ext = true
+			}
+		}
+		return true
+	}
+	ast.Inspect(e, visit)
+	return ext
+}
+
+// canonSet: canon, except that an expression which IS a parameter of a non-entry plain function stands for what the
+// callers inside the package pass there (one string per call site; two levels).
+func (p *pkg) canonSet(fd *ast.FuncDecl, e ast.Expr, depth int) []string {
+	if id, ok := strip(e).(*ast.Ident); ok && isLocal(fd, id) && depth < 2 && fd.Recv == nil && !p.entry(fd) {
+		if rhs := singleDef(fd, id); rhs != nil {
+			return p.canonSet(fd, rhs, depth)
+		}
+		idx, k := -1, 0
+		for _, f := range fd.Type.Params.List {
+			for _, n := range f.Names {
+				if n.Obj == id.Obj {
+					idx = k
+				}
+				k++
+			}
+		}
+		if _, variadic := fd.Type.Params.List[len(fd.Type.Params.List)-1].Type.(*ast.Ellipsis); idx >= 0 && !variadic {
+			var out []string
+			for _, c := range p.all {
+				c := c
+				ast.Inspect(c.Body, func(n ast.Node) bool {
+					if call, ok := n.(*ast.CallExpr); ok && len(call.Args) == k {
+						if ci, ok := strip(call.Fun).(*ast.Ident); ok && ci.Name == fd.Name.Name && !isLocal(c, ci) {
+							out = append(out, p.canonSet(c, call.Args[idx], depth+1)...)
+						}
+					}
+					return true
+				})
+			}
+			if len(out) > 0 {
+				return out
+			}
+		}
+	}
+	return []string{p.canon(fd, e, 0)}
 }
 
 func leanList(l []string) string {
@@ -157,18 +517,49 @@ func main() {
 	common := loadPkg("client/common")
 	wallet := loadPkg("client/wallet")
 
-	// ---- 1. every use of the identifier allBalMinVal in package common: declaration, atomic load, atomic store
+	// ---- 1. the variable behind common.AllBalMinVal(), and every use of it in package common
+	getter := common.funcs["AllBalMinVal"]
+	if getter == nil {
+		die(fmt.Errorf("client/common: func AllBalMinVal not found"))
+	}
+	atomicArg := func(fd *ast.FuncDecl, n ast.Node, fn string) *ast.Ident {
+		c, ok := n.(*ast.CallExpr)
+		if !ok || len(c.Args) == 0 || src(common.fset, strip(c.Fun)) != fn {
+			return nil
+		}
+		u, ok := strip(c.Args[0]).(*ast.UnaryExpr)
+		if !ok || u.Op != token.AND {
+			return nil
+		}
+		id, ok := strip(u.X).(*ast.Ident)
+		if !ok || isLocal(fd, id) || !common.globals[id.Name] {
+			return nil
+		}
+		return id
+	}
+	loaded := map[string]bool{}
+	for _, g := range common.inl(getter) {
+		ast.Inspect(g.Body, func(n ast.Node) bool {
+			if id := atomicArg(g, n, "atomic.LoadUint64"); id != nil {
+				loaded[id.Name] = true
+			}
+			return true
+		})
+	}
+	if len(loaded) != 1 {
+		die(fmt.Errorf("common.AllBalMinVal: expected one atomic.LoadUint64(&<package variable>), found %v", sorted(loaded)))
+	}
+	minVar := sorted(loaded)[0]
 	declared := false
-	var writers, readers, stored []string
 	for _, f := range common.files {
 		for _, d := range f.Decls {
 			if gd, ok := d.(*ast.GenDecl); ok {
 				for _, sp := range gd.Specs {
 					if vs, ok := sp.(*ast.ValueSpec); ok {
 						for _, n := range vs.Names {
-							if n.Name == "allBalMinVal" {
-								if len(vs.Values) != 0 || src(common.fset, vs.Type) != "uint64" {
-									die(fmt.Errorf("allBalMinVal: declaration is not `allBalMinVal uint64` without initialiser"))
+							if n.Name == minVar {
+								if len(vs.Values) != 0 || vs.Type == nil || src(common.fset, vs.Type) != "uint64" {
+									die(fmt.Errorf("%s: declaration is not `%s uint64` without initialiser", minVar, minVar))
 								}
 								declared = true
 							}
@@ -179,108 +570,82 @@ func main() {
 		}
 	}
 	if !declared {
-		die(fmt.Errorf("client/common: package-level variable allBalMinVal not found"))
+		die(fmt.Errorf("client/common: package-level variable %s not found", minVar))
 	}
+	writerFns, readerFns := map[*ast.FuncDecl]bool{}, map[*ast.FuncDecl]bool{}
+	storedSet := map[string]bool{}
 	for _, fd := range common.all {
+		fd := fd
 		accounted := map[*ast.Ident]bool{}
 		ast.Inspect(fd.Body, func(n ast.Node) bool {
-			c, ok := n.(*ast.CallExpr)
-			if !ok || len(c.Args) == 0 {
-				return true
-			}
-			u, ok := c.Args[0].(*ast.UnaryExpr)
-			if !ok || u.Op != token.AND {
-				return true
-			}
-			id, ok := u.X.(*ast.Ident)
-			if !ok || id.Name != "allBalMinVal" {
-				return true
-			}
-			switch src(common.fset, c.Fun) {
-			case "atomic.LoadUint64":
-				readers = append(readers, fname(fd))
+			if id := atomicArg(fd, n, "atomic.LoadUint64"); id != nil && id.Name == minVar {
+				readerFns[fd] = true
 				accounted[id] = true
-			case "atomic.StoreUint64":
+			}
+			if id := atomicArg(fd, n, "atomic.StoreUint64"); id != nil && id.Name == minVar {
+				c := n.(*ast.CallExpr)
 				if len(c.Args) != 2 {
-					die(fmt.Errorf("%s: atomic.StoreUint64(&allBalMinVal, …) with %d arguments", fname(fd), len(c.Args)))
+					die(fmt.Errorf("%s: atomic.StoreUint64(&%s, …) with %d arguments", fname(fd), minVar, len(c.Args)))
 				}
-				writers = append(writers, fname(fd))
-				stored = append(stored, src(common.fset, c.Args[1]))
+				writerFns[fd] = true
+				for _, v := range common.canonSet(fd, c.Args[1], 0) {
+					storedSet[v] = true
+				}
 				accounted[id] = true
 			}
 			return true
 		})
 		ast.Inspect(fd.Body, func(n ast.Node) bool {
-			if id, ok := n.(*ast.Ident); ok && id.Name == "allBalMinVal" && !accounted[id] {
-				die(fmt.Errorf("%s: allBalMinVal is used other than through atomic.LoadUint64 / atomic.StoreUint64 — not a shape the model knows", fname(fd)))
+			if id, ok := n.(*ast.Ident); ok && id.Name == minVar && !isLocal(fd, id) && !accounted[id] {
+				die(fmt.Errorf("%s: %s is used other than through atomic.LoadUint64 / atomic.StoreUint64 — not a shape the model knows", fname(fd), minVar))
 			}
 			return true
 		})
 	}
-	sort.Strings(writers)
-	sort.Strings(readers)
-	sort.Strings(stored)
-	if len(writers) == 0 || len(readers) == 0 {
-		die(fmt.Errorf("allBalMinVal: no atomic store or no atomic load found"))
+	if len(writerFns) == 0 || len(readerFns) == 0 {
+		die(fmt.Errorf("%s: no atomic store or no atomic load found", minVar))
 	}
+	writers, readers, stored := common.lift(writerFns), common.lift(readerFns), sorted(storedSet)
 
-	// ---- 2. which functions of package common can reach a store (calls by plain identifier inside the package)
-	reach := map[string]bool{}
-	for _, w := range writers {
+	// ---- 2. which functions of package common can reach a store (calls inside the package, methods by name)
+	reach := map[*ast.FuncDecl]bool{}
+	for w := range writerFns {
 		reach[w] = true
 	}
 	for changed := true; changed; {
 		changed = false
 		for _, fd := range common.all {
-			if reach[fname(fd)] {
+			if reach[fd] {
 				continue
 			}
-			ast.Inspect(fd.Body, func(n ast.Node) bool {
-				if c, ok := n.(*ast.CallExpr); ok {
-					fn := c.Fun
-					if ix, ok := fn.(*ast.IndexExpr); ok { // generic instantiation f[T](…)
-						fn = ix.X
-					}
-					if id, ok := fn.(*ast.Ident); ok && reach[id.Name] && common.funcs[id.Name] != nil && !reach[fname(fd)] {
-						reach[fname(fd)] = true
-						changed = true
-					}
-				}
-				return true
-			})
-		}
-	}
-	var reachers []string
-	for k := range reach {
-		reachers = append(reachers, k)
-	}
-	sort.Strings(reachers)
-	if common.funcs["Reset"] == nil {
-		die(fmt.Errorf("client/common: func Reset not found"))
-	}
-	// function values (callbacks) handed around would escape this call graph: the writers must not be used as values
-	for _, fd := range common.all {
-		ast.Inspect(fd.Body, func(n ast.Node) bool {
-			switch x := n.(type) {
-			case *ast.CallExpr:
-				for _, a := range x.Args {
-					if id, ok := a.(*ast.Ident); ok && reach[id.Name] && common.funcs[id.Name] != nil {
-						die(fmt.Errorf("%s passes %s as a function value — call graph not understood", fname(fd), id.Name))
-					}
-				}
-			case *ast.AssignStmt:
-				for _, a := range x.Rhs {
-					if id, ok := a.(*ast.Ident); ok && reach[id.Name] && common.funcs[id.Name] != nil {
-						die(fmt.Errorf("%s stores %s as a function value — call graph not understood", fname(fd), id.Name))
-					}
+			for _, g := range common.callees[fd] {
+				if reach[g] {
+					reach[fd] = true
+					changed = true
+					break
 				}
 			}
-			return true
-		})
+		}
+	}
+	reachSet := map[string]bool{}
+	for fd := range reach {
+		if common.entry(fd) {
+			reachSet[fname(fd)] = true
+		}
+		// function values (callbacks) handed around would escape this call graph
+		if common.valUsed[fd] {
+			die(fmt.Errorf("client/common: %s (from which a store to %s is reachable) is used as a function value — call graph not understood", fname(fd), minVar))
+		}
+	}
+	reachers := sorted(reachSet)
+	reset := common.funcs["Reset"]
+	if reset == nil {
+		die(fmt.Errorf("client/common: func Reset not found"))
 	}
 
-	// ---- 3. callers of the writers outside package common (all of client/, by qualified name)
-	var extCallers []string
+	// ---- 3. callers of the (exported) writers outside package common (all of client/), lifted to entry points;
+	// a writer mentioned other than as the callee of a call is listed as "<pkg>.<entry> (as a value)"
+	extSet := map[string]bool{}
 	filepath.Walk(filepath.Join(vtrans.RepoRoot(), "client"), func(path string, info os.FileInfo, err error) error {
 		if err != nil || !info.IsDir() {
 			return nil
@@ -289,19 +654,36 @@ func main() {
 		if rel == "client/common" {
 			return nil
 		}
-		p := loadPkg(rel)
-		var q []string
-		for _, w := range writers {
-			q = append(q, "common."+w)
+		p := wallet
+		if rel != "client/wallet" {
+			p = loadPkg(rel)
 		}
-		for _, f := range p.callsTo(q...) {
-			extCallers = append(extCallers, p.name+"."+f)
+		callee := map[ast.Node]bool{}
+		callers := p.holding(func(fd *ast.FuncDecl, n ast.Node) bool {
+			for _, w := range writers {
+				if p.isCallTo(n, "common."+w) {
+					callee[strip(n.(*ast.CallExpr).Fun)] = true
+					return true
+				}
+			}
+			return false
+		})
+		for _, f := range p.lift(callers) {
+			extSet[p.name+"."+f] = true
+		}
+		asValue := p.holding(func(fd *ast.FuncDecl, n ast.Node) bool {
+			s, ok := n.(*ast.SelectorExpr)
+			return ok && !callee[s] && has(writers, s.Sel.Name) && src(p.fset, s.X) == "common"
+		})
+		for _, f := range p.lift(asValue) {
+			extSet[p.name+"."+f+" (as a value)"] = true
 		}
 		return nil
 	})
-	sort.Strings(extCallers)
+	extCallers := sorted(extSet)
 
-	// ---- 4. wallet.LoadBalancesFromUtxo: guard first, one apply at top level before the scan loop, none inside
+	// ---- 4. wallet.LoadBalancesFromUtxo: guard first; exactly one (possible) apply, as a top-level statement
+	// (directly or through a helper that does it unconditionally), before the one top-level statement that scans
 	lb := wallet.funcs["LoadBalancesFromUtxo"]
 	if lb == nil {
 		die(fmt.Errorf("client/wallet: func LoadBalancesFromUtxo not found"))
@@ -309,92 +691,253 @@ func main() {
 	guard := false
 	if len(lb.Body.List) > 0 {
 		if is, ok := lb.Body.List[0].(*ast.IfStmt); ok && is.Init == nil && is.Else == nil &&
-			src(wallet.fset, is.Cond) == "common.Get(&common.WalletON)" && len(is.Body.List) >= 1 {
+			src(wallet.fset, strip(is.Cond)) == "common.Get(&common.WalletON)" && len(is.Body.List) >= 1 {
 			if _, ok := is.Body.List[len(is.Body.List)-1].(*ast.ReturnStmt); ok {
 				guard = true
 			}
 		}
 	}
-	applyTop, applyNested, loopAt, applyAt, loops := 0, 0, -1, -1, 0
-	for i, st := range lb.Body.List {
-		switch s := st.(type) {
-		case *ast.ExprStmt:
-			if c, ok := s.X.(*ast.CallExpr); ok && src(wallet.fset, c.Fun) == "common.ApplyBalMinVal" {
-				applyTop++
-				applyAt = i
-			}
-		case *ast.RangeStmt, *ast.ForStmt:
-			loops++
-			if loopAt < 0 {
-				loopAt = i
-			}
-		}
+	const applyFn = "common.ApplyBalMinVal"
+	if !has(writers, "ApplyBalMinVal") {
+		die(fmt.Errorf("client/common: ApplyBalMinVal is not a writer of %s — the model's build step is written for it", minVar))
 	}
-	ast.Inspect(lb.Body, func(n ast.Node) bool {
-		if c, ok := n.(*ast.CallExpr); ok && src(wallet.fset, c.Fun) == "common.ApplyBalMinVal" {
-			applyNested++
-		}
-		return true
-	})
-	if loops != 1 {
-		die(fmt.Errorf("LoadBalancesFromUtxo: expected exactly one top-level scan loop, found %d", loops))
-	}
-	applyOnce := applyTop == 1 && applyNested == 1 && applyAt < loopAt
-	// the scan loop notifies through TxNotifyAdd and polls FetchingBalanceTick
-	loopSrc := src(wallet.fset, lb.Body.List[loopAt])
-	if !strings.Contains(loopSrc, "TxNotifyAdd(utxo.NewUtxoRecStatic(") || !strings.Contains(loopSrc, "FetchingBalanceTick()") {
-		die(fmt.Errorf("LoadBalancesFromUtxo: the scan loop does not have the shape the model mirrors"))
-	}
-
-	// ---- 5. readers in client/wallet
-	inForce := wallet.callsTo("common.AllBalMinVal")
-	direct := wallet.mentions("common.CFG.AllBalances.MinValue")
-	for _, need := range []string{"NewUTXO", "all_del_utxos"} {
-		if wallet.funcs[need] == nil {
-			die(fmt.Errorf("client/wallet: func %s not found", need))
-		}
-	}
-
-	// ---- 6. useMapCnt
-	var umWriters, umSources []string
-	for _, fd := range wallet.all {
-		ast.Inspect(fd.Body, func(n ast.Node) bool {
-			switch x := n.(type) {
-			case *ast.AssignStmt:
-				for i, l := range x.Lhs {
-					if id, ok := l.(*ast.Ident); ok && id.Name == "useMapCnt" {
-						if x.Tok != token.ASSIGN || len(x.Rhs) != len(x.Lhs) {
-							die(fmt.Errorf("%s: assignment to useMapCnt not understood", fname(fd)))
-						}
-						umWriters = append(umWriters, fname(fd))
-						umSources = append(umSources, src(wallet.fset, x.Rhs[i]))
+	mayApply := wallet.holding(func(fd *ast.FuncDecl, n ast.Node) bool { return wallet.isCallTo(n, applyFn) })
+	for changed := true; changed; { // … or reaches one
+		changed = false
+		for _, fd := range wallet.all {
+			if !mayApply[fd] {
+				for _, g := range wallet.callees[fd] {
+					if mayApply[g] {
+						mayApply[fd] = true
+						changed = true
 					}
 				}
-			case *ast.IncDecStmt:
-				if id, ok := x.X.(*ast.Ident); ok && id.Name == "useMapCnt" {
-					die(fmt.Errorf("%s: useMapCnt++/-- not understood", fname(fd)))
+			}
+		}
+	}
+	// calleesOf(call): the package functions a call expression may go to
+	calleesOf := func(fd *ast.FuncDecl, c *ast.CallExpr) (out []*ast.FuncDecl) {
+		switch x := strip(c.Fun).(type) {
+		case *ast.Ident:
+			if g := wallet.funcs[x.Name]; g != nil && !isLocal(fd, x) {
+				out = append(out, g)
+			}
+		case *ast.SelectorExpr:
+			if id, ok := x.X.(*ast.Ident); ok && imports(wallet.fileOf[fd])[id.Name] && !isLocal(fd, id) {
+				return nil
+			}
+			out = append(out, wallet.methods[x.Sel.Name]...)
+		}
+		return
+	}
+	// possible applies inside a body: direct calls + calls to package functions that may apply
+	countMay := func(fd *ast.FuncDecl, body ast.Node) (n int) {
+		ast.Inspect(body, func(m ast.Node) bool {
+			if c, ok := m.(*ast.CallExpr); ok {
+				if wallet.isCallTo(c, applyFn) {
+					n++
+				} else {
+					for _, g := range calleesOf(fd, c) {
+						if mayApply[g] {
+							n++
+							break
+						}
+					}
 				}
-			case *ast.UnaryExpr:
-				if id, ok := x.X.(*ast.Ident); ok && x.Op == token.AND && id.Name == "useMapCnt" {
-					die(fmt.Errorf("%s: address of useMapCnt taken — not understood", fname(fd)))
+			}
+			return true
+		})
+		return
+	}
+	// straight(fd, stmt): the statement is an unconditional apply — the call itself, or a call of a plain package
+	// function whose body has exactly one possible apply and that one is a top-level straight statement
+	var straight func(fd *ast.FuncDecl, st ast.Stmt, depth int) bool
+	straight = func(fd *ast.FuncDecl, st ast.Stmt, depth int) bool {
+		es, ok := st.(*ast.ExprStmt)
+		if !ok {
+			return false
+		}
+		c, ok := es.X.(*ast.CallExpr)
+		if !ok {
+			return false
+		}
+		if wallet.isCallTo(c, applyFn) {
+			return true
+		}
+		id, ok := strip(c.Fun).(*ast.Ident)
+		if !ok || depth >= 2 || isLocal(fd, id) {
+			return false
+		}
+		g := wallet.funcs[id.Name]
+		if g == nil || countMay(g, g.Body) != 1 {
+			return false
+		}
+		for _, s := range g.Body.List {
+			if straight(g, s, depth+1) {
+				return true
+			}
+		}
+		return false
+	}
+	// the scan: TxNotifyAdd(utxo.NewUtxoRecStatic(…)) and a poll of FetchingBalanceTick, in the statement itself or
+	// in non-entry helpers it calls
+	scanIn := func(fd *ast.FuncDecl, st ast.Stmt) (notify, tick bool) {
+		look := func(body ast.Node) {
+			ast.Inspect(body, func(m ast.Node) bool {
+				if c, ok := m.(*ast.CallExpr); ok {
+					switch src(wallet.fset, strip(c.Fun)) {
+					case "TxNotifyAdd":
+						if len(c.Args) == 1 && wallet.isCallTo(strip(c.Args[0]), "utxo.NewUtxoRecStatic") {
+							notify = true
+						}
+					case "FetchingBalanceTick":
+						tick = true
+					}
+				}
+				return true
+			})
+		}
+		look(st)
+		seen := map[*ast.FuncDecl]bool{}
+		var todo []*ast.FuncDecl
+		ast.Inspect(st, func(m ast.Node) bool {
+			if c, ok := m.(*ast.CallExpr); ok {
+				todo = append(todo, calleesOf(fd, c)...)
+			}
+			return true
+		})
+		for _, g := range todo {
+			if wallet.entry(g) {
+				continue
+			}
+			for _, h := range wallet.inl(g) {
+				if !seen[h] {
+					seen[h] = true
+					look(h.Body)
+				}
+			}
+		}
+		return
+	}
+	applyTop, applyAt, scanAt, scans, scanTick := 0, -1, -1, 0, false
+	for i, st := range lb.Body.List {
+		if straight(lb, st, 0) {
+			applyTop++
+			applyAt = i
+		}
+		if n, t := scanIn(lb, st); n {
+			scans++
+			scanAt = i
+			scanTick = t
+		}
+	}
+	if scans != 1 || !scanTick {
+		die(fmt.Errorf("LoadBalancesFromUtxo: expected exactly one top-level statement that scans (TxNotifyAdd(utxo.NewUtxoRecStatic(…)) and polls FetchingBalanceTick()), found %d", scans))
+	}
+	switch lb.Body.List[scanAt].(type) {
+	case *ast.RangeStmt, *ast.ForStmt, *ast.ExprStmt, *ast.AssignStmt:
+	default:
+		die(fmt.Errorf("LoadBalancesFromUtxo: the scan is not a top-level loop (or a call of a helper holding it)"))
+	}
+	applyOnce := applyTop == 1 && countMay(lb, lb.Body) == 1 && applyAt < scanAt
+
+	// ---- 5. the wallet's copy of CFG.AllBalances.UseMapCnt: the package variable(s) assigned from it
+	const cfgUM = "common.CFG.AllBalances.UseMapCnt"
+	umVars := map[string]bool{}
+	for _, fd := range wallet.all {
+		fd := fd
+		ast.Inspect(fd.Body, func(n ast.Node) bool {
+			if x, ok := n.(*ast.AssignStmt); ok && len(x.Lhs) == len(x.Rhs) {
+				for i, l := range x.Lhs {
+					if id, ok := l.(*ast.Ident); ok && !isLocal(fd, id) && wallet.globals[id.Name] &&
+						strings.Contains(strings.Join(wallet.canonSet(fd, x.Rhs[i], 0), " "), cfgUM) {
+						umVars[id.Name] = true
+					}
 				}
 			}
 			return true
 		})
 	}
-	sort.Strings(umWriters)
-	srcSet := map[string]bool{}
-	for _, s := range umSources {
-		srcSet[s] = true
+	if len(umVars) != 1 {
+		die(fmt.Errorf("client/wallet: expected one package variable assigned from %s, found %v", cfgUM, sorted(umVars)))
 	}
-	umSources = nil
-	for s := range srcSet {
-		umSources = append(umSources, s)
+	umVar := sorted(umVars)[0]
+	umWriterFns := map[*ast.FuncDecl]bool{}
+	umSrc := map[string]bool{}
+	for _, fd := range wallet.all {
+		fd := fd
+		ast.Inspect(fd.Body, func(n ast.Node) bool {
+			mine := func(e ast.Expr) bool {
+				id, ok := strip(e).(*ast.Ident)
+				return ok && id.Name == umVar && !isLocal(fd, id)
+			}
+			switch x := n.(type) {
+			case *ast.AssignStmt:
+				for i, l := range x.Lhs {
+					if mine(l) {
+						if x.Tok != token.ASSIGN || len(x.Rhs) != len(x.Lhs) {
+							die(fmt.Errorf("%s: assignment to %s not understood", fname(fd), umVar))
+						}
+						umWriterFns[fd] = true
+						for _, v := range wallet.canonSet(fd, x.Rhs[i], 0) {
+							umSrc[v] = true
+						}
+					}
+				}
+			case *ast.IncDecStmt:
+				if mine(x.X) {
+					die(fmt.Errorf("%s: %s++/-- not understood", fname(fd), umVar))
+				}
+			case *ast.UnaryExpr:
+				if x.Op == token.AND && mine(x.X) {
+					die(fmt.Errorf("%s: address of %s taken — not understood", fname(fd), umVar))
+				}
+			}
+			return true
+		})
 	}
-	sort.Strings(umSources)
-	if len(umWriters) == 0 {
-		die(fmt.Errorf("client/wallet: no assignment to useMapCnt found"))
+	umWriters, umSources := wallet.lift(umWriterFns), sorted(umSrc)
+	wallet.alias = map[string]string{umVar: "<useMapCnt>"}
+
+	// ---- 6. the operands of ordered comparisons (< <= > >=) in the callbacks and everything they reach inside the
+	// package that are not made of locals and literals only: the package-level / imported quantities they depend on
+	thresholds := func(entry string) (ths []string, inForce bool) {
+		e := wallet.funcs[entry]
+		if e == nil {
+			die(fmt.Errorf("client/wallet: func %s not found", entry))
+		}
+		set := map[string]bool{}
+		for _, g := range wallet.clo(e) {
+			g := g
+			ast.Inspect(g.Body, func(n ast.Node) bool {
+				if wallet.isCallTo(n, "common.AllBalMinVal") {
+					inForce = true
+				}
+				b, ok := n.(*ast.BinaryExpr)
+				if !ok {
+					return true
+				}
+				switch b.Op {
+				case token.LSS, token.LEQ, token.GTR, token.GEQ:
+				default:
+					return true
+				}
+				for _, side := range []ast.Expr{b.X, b.Y} {
+					if wallet.external(g, side, 0) {
+						set[wallet.canon(g, side, 0)] = true
+					}
+				}
+				return true
+			})
+		}
+		return sorted(set), inForce
 	}
+	addThs, addInForce := thresholds("TxNotifyAdd")
+	delThs, delInForce := thresholds("TxNotifyDel")
+	direct := wallet.lift(wallet.holding(func(fd *ast.FuncDecl, n ast.Node) bool {
+		s, ok := n.(*ast.SelectorExpr)
+		return ok && src(wallet.fset, s) == "common.CFG.AllBalances.MinValue"
+	}))
 
 	// ---- output
 	var sb strings.Builder
@@ -403,21 +946,25 @@ func main() {
 		fmt.Fprintf(&sb, "/-- %s -/\ndef %s : %s := %s\n", doc, name, ty, val)
 		facts++
 	}
-	sb.WriteString("/- GENERATED by go/cmd/gen_c17 from client/common/*.go and client/wallet/*.go — do not edit; not in git. -/\n")
+	sb.WriteString("/- GENERATED by go/cmd/gen_c17 from client/common/*.go and client/wallet/*.go — do not edit; not in git.\n")
+	sb.WriteString("   Functions are named only when they are entry points of their package (exported, init, main, used as a value);\n")
+	sb.WriteString("   unexported helpers count as inlined into their callers; locals are resolved or printed as <local>. -/\n")
 	sb.WriteString("namespace GocoinV.Gen.WalletCfgFacts\n\n")
-	def("functions of package common holding an atomic store to allBalMinVal", "minValWriters", "List String", leanList(writers))
+	def("entry points of package common that (with their unexported helpers inlined) hold an atomic store to the variable common.AllBalMinVal() loads", "minValWriters", "List String", leanList(writers))
 	def("the expressions stored there", "minValStored", "List String", leanList(stored))
-	def("functions of package common holding an atomic load of allBalMinVal", "minValReaders", "List String", leanList(readers))
-	def("functions of package common from which a store to allBalMinVal is reachable (calls inside the package)", "minValReach", "List String", leanList(reachers))
-	def("common.Reset() — called after every config change of the WebUI / TextUI, from their goroutines — can reach a store to allBalMinVal", "resetMayWriteMinVal", "Bool", fmt.Sprint(reach["Reset"]))
-	def("functions outside package common (client/...) that call a writer of allBalMinVal", "minValExternalCallers", "List String", leanList(extCallers))
+	def("entry points of package common that (with helpers inlined) hold an atomic load of that variable", "minValReaders", "List String", leanList(readers))
+	def("entry points of package common from which a store to that variable is reachable (calls inside the package)", "minValReach", "List String", leanList(reachers))
+	def("common.Reset() — called after every config change of the WebUI / TextUI, from their goroutines — can reach a store to that variable", "resetMayWriteMinVal", "Bool", fmt.Sprint(reach[reset]))
+	def("entry points outside package common (client/...) that (with helpers inlined) call a writer", "minValExternalCallers", "List String", leanList(extCallers))
 	def("LoadBalancesFromUtxo starts with `if common.Get(&common.WalletON) { return }`", "loadGuardedByWalletON", "Bool", fmt.Sprint(guard))
-	def("LoadBalancesFromUtxo calls common.ApplyBalMinVal() exactly once, as a top-level statement before its scan loop", "loadAppliesOnceBeforeScan", "Bool", fmt.Sprint(applyOnce))
-	def("wallet.NewUTXO compares with common.AllBalMinVal() (the value in force)", "newUtxoReadsInForce", "Bool", fmt.Sprint(has(inForce, "NewUTXO")))
-	def("wallet.all_del_utxos compares with common.AllBalMinVal() (the value in force)", "allDelReadsInForce", "Bool", fmt.Sprint(has(inForce, "all_del_utxos")))
-	def("functions of client/wallet reading common.CFG.AllBalances.MinValue directly", "walletReadsCfgMinValue", "List String", leanList(direct))
-	def("functions of client/wallet assigning useMapCnt", "useMapCntWriters", "List String", leanList(umWriters))
-	def("the expressions assigned to useMapCnt", "useMapCntSources", "List String", leanList(umSources))
+	def("LoadBalancesFromUtxo has exactly one possible call of common.ApplyBalMinVal(), an unconditional top-level statement before its one scanning statement", "loadAppliesOnceBeforeScan", "Bool", fmt.Sprint(applyOnce))
+	def("operands of ordered comparisons in wallet.TxNotifyAdd (and what it calls in the package) that mention package-level or imported names; <useMapCnt> = the wallet's copy of CFG.AllBalances.UseMapCnt", "addPathComparesWith", "List String", leanList(addThs))
+	def("the same for wallet.TxNotifyDel", "delPathComparesWith", "List String", leanList(delThs))
+	def("wallet.TxNotifyAdd's path calls common.AllBalMinVal() (the value in force)", "addPathReadsInForce", "Bool", fmt.Sprint(addInForce))
+	def("wallet.TxNotifyDel's path calls common.AllBalMinVal() (the value in force)", "delPathReadsInForce", "Bool", fmt.Sprint(delInForce))
+	def("entry points of client/wallet reading common.CFG.AllBalances.MinValue directly", "walletReadsCfgMinValue", "List String", leanList(direct))
+	def("entry points of client/wallet assigning the wallet's copy of CFG.AllBalances.UseMapCnt", "useMapCntWriters", "List String", leanList(umWriters))
+	def("the expressions assigned to it", "useMapCntSources", "List String", leanList(umSources))
 	sb.WriteString("\nend GocoinV.Gen.WalletCfgFacts\n")
 	out := vlib.Root() + "/lean/GocoinV/Gen/WalletCfgFacts.lean"
 	os.Remove(out)
